@@ -29,6 +29,40 @@ def run_worker(modules, fid, timeout_ms, opts):
     return rep
 
 
+def run_function(modules, fid, timeout_ms, opts, split):
+    """Verify one function; when `split` > 1 its path tree is first expanded breadth-first to about `split` open prefixes,
+    which are then explored by parallel workers (same deterministic replay), and the reports are merged."""
+    if split <= 1:
+        return run_worker(modules, fid, timeout_ms, opts)
+    first = run_worker(modules, fid, timeout_ms, dict(opts, split_at=split))
+    left = first.get("leftover_scripts") or []
+    if first.get("status") != "ok" or not left:
+        return first
+    with concurrent.futures.ThreadPoolExecutor(max_workers=len(left)) as ex:
+        parts = list(ex.map(lambda sc: run_worker(modules, fid, timeout_ms, dict(opts, start_scripts=[sc])), left))
+    rep = first
+    for p in parts:
+        if p.get("status") != "ok":
+            rep["status"] = p.get("status")
+            rep["reason"] = p.get("reason")
+            rep["trace"] = p.get("trace")
+            continue
+        rep["obligations"] += p.get("obligations", [])
+        rep["paths"] += p.get("paths", 0)
+        for k, v in p.get("outcomes", {}).items():
+            rep["outcomes"][k] = rep["outcomes"].get(k, 0) + v
+        rep["solver_time_s"] = rep.get("solver_time_s", 0) + p.get("solver_time_s", 0)
+        rep["inlined"] = sorted(set(rep.get("inlined", [])) | set(p.get("inlined", [])))
+        rep["used_contracts"] = sorted(set(rep.get("used_contracts", [])) | set(p.get("used_contracts", [])))
+        rep["assumed_contracts"] = sorted(set(rep.get("assumed_contracts", [])) | set(p.get("assumed_contracts", [])))
+        for k, v in p.get("cover", {}).items():
+            rep["cover"][k] = rep["cover"].get(k, 0) + v
+        rep["unreached_ensures"] = sorted(set(rep.get("unreached_ensures", [])) & set(p.get("unreached_ensures", [])))
+    rep["wall_s"] = round(max([first.get("wall_s", 0)] + [first.get("wall_s", 0) + p.get("wall_s", 0) for p in parts]), 2)
+    rep["parallel_subtrees"] = len(left)
+    return rep
+
+
 def in_scope(ob, pid):
     tags = ob.get("tags")
     return tags is None or pid in tags
@@ -88,11 +122,11 @@ def main(argv):
     t0 = time.time()
     timeout_ms = 10000 if tier == "quick" else 120000
     jobs = int(os.environ.get("PYVC_JOBS", "16"))
-    opts = {"tier": tier}
+    opts = {"tier": tier, "prop": pid}
     try:
         reports = {}
         with concurrent.futures.ThreadPoolExecutor(max_workers=jobs) as ex:
-            futs = {ex.submit(run_worker, cfg["modules"], fid, timeout_ms, opts): fid for fid in cfg["functions"]}
+            futs = {ex.submit(run_function, cfg["modules"], fid, timeout_ms, opts, cfg.get("split", {}).get(fid, 1)): fid for fid in cfg["functions"]}
             for fu in concurrent.futures.as_completed(futs):
                 reports[futs[fu]] = fu.result()
         # helper-contract drift: a failing H-level contract is retried with the helper inlined in its users
@@ -102,7 +136,7 @@ def main(argv):
             users = [fid for fid, r in reports.items() if set(r.get("used_contracts", [])) & set(failed_h)]
             o2 = dict(opts, inline=failed_h)
             with concurrent.futures.ThreadPoolExecutor(max_workers=jobs) as ex:
-                futs = {ex.submit(run_worker, cfg["modules"], fid, timeout_ms, o2): fid for fid in users}
+                futs = {ex.submit(run_function, cfg["modules"], fid, timeout_ms, o2, cfg.get("split", {}).get(fid, 1)): fid for fid in users}
                 for fu in concurrent.futures.as_completed(futs):
                     reports[futs[fu]] = fu.result()
             for h in failed_h:
